@@ -32,6 +32,10 @@ func (cs ClientState) GetLatestHeight() exported.Height {
 }
 
 func (cs ClientState) Validate() error {
+	// a consensus state at height 0-0 is rejected by the genesis validation of an export
+	if cs.Header.Height.IsZero() {
+		return sdkerrors.Wrap(ErrInvalidGenesisBlock, "header height cannot be zero")
+	}
 	return cs.Header.ValidateBasic()
 }
 
